@@ -27,6 +27,9 @@ type TxSpec struct {
 	// Vary, if set, turns this spec into a distinct transaction with the same meaning (default: the
 	// memo gets a suffix). Kinds whose memo is constrained (OLVM: memo == nonce) set it.
 	Vary func(t *TxSpec, tag string) `json:"-"`
+	// SignFn, if set, produces the signature list itself (OLVM: one EIP-155 signature over the embedded
+	// Ethereum transaction instead of signatures over RawBytes()).
+	SignFn func(raw action.RawTx) []action.Signature `json:"-"`
 }
 
 // Fresh returns a copy that is a different transaction (different bytes, different hash, correctly
@@ -51,6 +54,10 @@ func (t *TxSpec) Signed() action.SignedTx {
 	raw := t.Raw()
 	msg := raw.RawBytes()
 	st := action.SignedTx{RawTx: raw}
+	if t.SignFn != nil {
+		st.Signatures = t.SignFn(raw)
+		return st
+	}
 	for _, s := range t.Signers {
 		st.Signatures = append(st.Signatures, action.Signature{Signer: s.Pub, Signed: s.Sign(msg)})
 	}
